@@ -38,6 +38,7 @@
 namespace st {
 struct Tagged { int code; };      // the only exception type the harness throws
 inline int err_code(const std::exception_ptr& e) {
+  if (!e) return -997;      // an error completion that carries no exception (e.g. a dangling reference to a destroyed exception_ptr)
   try { std::rethrow_exception(e); } catch (Tagged& t) { return t.code; } catch (...) { return -999; }
 }
 inline std::exception_ptr mkerr(int code) { return std::make_exception_ptr(Tagged{code}); }
